@@ -33,10 +33,10 @@ ASSUMPTIONS = [
     "idempotence is an amplitude statement and is judged for complex and pure-phase objects",
 ]
 BUDGET = {"quick": {"soft_s": 110, "workers": 14}, "thorough": {"soft_s": 800, "workers": 14}}
-MIN_EVALUATIONS = {"quick": 300, "thorough": 3000}
+MIN_EVALUATIONS = {"quick": 3000, "thorough": 30000}
 REQUIRED_COUNTERS = [
     "eval:complex_amplitude_above_one", "eval:pure_phase_amplitude_not_one", "eval:potential_negative_under_positivity", "eval:slices_not_identical", "eval:constraint_not_idempotent",
-    "eval:modes_not_orthogonal", "eval:mode_intensities_changed", "eval:modes_not_descending", "eval:initial_probe_total_intensity", "eval:initial_probe_weights",
+    "eval:modes_not_orthogonal", "eval:mode_intensities_changed", "eval:modes_not_descending", "eval:initial_probe_total_intensity", "eval:initial_probe_weights", "insitu_cases_completed",
 ]
 
 TOL32, TOL64 = 2e-5, 1e-12
@@ -44,13 +44,13 @@ TOL32, TOL64 = 2e-5, 1e-12
 
 def plan(tier, seed):
     q = tier == "quick"
-    n = {"insitu": 70 if q else 700, "dip": 60 if q else 900, "obj": 900 if q else 14000, "tomo": 90 if q else 1400, "orth": 420 if q else 6500, "weights": 210 if q else 3200}
-    specs = [{"kind": "insitu", "i": i} for i in range(n["insitu"])]
+    n = {"insitu": 84 if q else 840, "dip": 200 if q else 2000, "obj": 3000 if q else 30000, "tomo": 200 if q else 2000, "orth": 1200 if q else 12000, "weights": 600 if q else 6000}
     rest = []
     for kind in ("obj", "dip", "tomo", "orth", "weights"):
         rest += [{"kind": kind, "i": i} for i in range(n[kind])]
+    # cheap direct cases first (milliseconds each), the in-situ reconstructions last, spread evenly over the workers (round-robin sharding)
     order = np.random.default_rng([seed, 10, 4242]).permutation(len(rest))
-    return specs + [rest[j] for j in order]
+    return [rest[j] for j in order] + [{"kind": "insitu", "i": i} for i in range(n["insitu"])]
 
 
 def _np(x):
@@ -454,6 +454,7 @@ def _run_insitu(spec, idx, ctx):
             st["live"] = L
     finally:
         st["live"] = None
+    ctx.count("insitu_cases_completed")
     raw = _np(pt.obj_model._obj)
     judged = L.get("obj_events", 0) + L.get("orth_events", 0) + L.get("public_obj", 0)
     ctx.nontrivial(("insitu", ot, ",".join(sorted(oc)), S, M, opt), judged > 0 and (L.get("obj_nontrivial", 0) + L.get("orth_nontrivial", 0)) > 0)
